@@ -1,6 +1,7 @@
 (* Property C03 — Sort returns a permutation of the rows ordered by the given keys. *)
 From QF Require Import Base.Prelude Model.Sort Proofs.SortProofs Proofs.SortSafe Proofs.SortSorted.
 From QF Require Import Corr.SortCorr Proofs.SortKeyProofs.
+From QF Require Import Proofs.SortQuick Proofs.SortQuickSorted Proofs.SortQuickRange.
 
 (* 1. The sorter only permutes: for ANY Less (even an inconsistent one), any length, any thresholds. *)
 Theorem C03_perm (lt : nat -> nat -> bool) (ids out : list nat) :
@@ -172,12 +173,134 @@ Example C03_sorted_small_example :
   strict_weak_order (rank_lt [3; 1; 2; 1; 0]%N) /\ length [4; 3; 2; 1; 0] <= 12.
 Proof. split; [apply (swo_of_rank _ (fun a => nthd [3; 1; 2; 1; 0]%N 0%N a))|cbn; lia]. Qed.
 
-(* 6. NOT PROVED: the quicksort regime (13 rows and more without exhausting maxDepth).  Missing is
-   the partition post-condition of doPivot for a strict weak order
-     data[lo, midlo) <= pivot, data[midlo, midhi) equivalent to pivot, data[midhi, hi) >= pivot
-   and its composition over the recursion.  On that regime the property is decided per run by the
-   verified checker sorted_perm_b on the implementation's output (engine "sort", code 2). *)
+(* 6. Third wave: the quicksort regime (13 rows and more), for any strict weak order.
+   6a. The partition post-condition of doPivot (loop invariants of sorter.go): on a range [lo, hi) of
+   more than 12 elements doPivot answers (midlo, midhi) with lo <= midlo < midhi <= hi and, with
+   pivot = data[midlo] afterwards,
+     data[lo, midlo) <= pivot,  data[midlo, midhi) neither smaller nor larger than pivot,
+     data[midhi, hi) >= pivot;
+   nothing outside [lo, hi) moves and every value of the range was a value of the range before. *)
+Theorem C03_do_pivot_partition (lt : nat -> nat -> bool) (lo hi : nat) (s : list nat) :
+  strict_weak_order lt -> 12 < hi - lo -> hi <= length s ->
+  exists mlo mhi s', do_pivot lt lo hi s = Ok (mlo, mhi, s') /\
+    (length s' = length s /\
+     (forall q, q < lo \/ hi <= q -> nth q s' 0 = nth q s 0) /\
+     (forall p, lo <= p -> p < hi -> exists p', lo <= p' /\ p' < hi /\ nth p s' 0 = nth p' s 0)) /\
+    lo <= mlo /\ mlo < mhi /\ mhi <= hi /\
+    (forall i, lo <= i -> i < mlo -> lt (nth mlo s' 0) (nth i s' 0) = false) /\
+    (forall i, mlo <= i -> i < mhi ->
+       lt (nth mlo s' 0) (nth i s' 0) = false /\ lt (nth i s' 0) (nth mlo s' 0) = false) /\
+    (forall i, mhi <= i -> i < hi -> lt (nth i s' 0) (nth mlo s' 0) = false).
+Proof. exact (fun W => do_pivot_partition lt W lo hi s). Qed.
+Print Assumptions C03_do_pivot_partition.
+
+Example C03_do_pivot_partition_example :
+  let ranks := [0; 7; 4; 1; 8; 5; 2; 9; 6; 3; 0; 7; 4; 1; 8; 5; 2; 9; 6; 3; 0; 7]%N in
+  let s := [21; 20; 19; 18; 17; 16; 15; 14; 13; 12; 11; 10; 9; 8; 7; 6; 5; 4; 3; 2; 1; 0] in
+  strict_weak_order (rank_lt ranks) /\ 12 < 20 - 2 /\ 20 <= length s /\
+  do_pivot (rank_lt ranks) 2 20 s
+  = Ok (8, 9, [21; 20; 13; 3; 6; 16; 9; 10; 19; 12; 11; 14; 15; 8; 7; 17; 5; 4; 18; 2; 1; 0]).
+Proof.
+  intros ranks s. split; [apply (swo_of_rank _ (fun a => nthd ranks 0%N a))|].
+  split; [cbn; lia|]. split; [cbn; lia|]. vm_compute. reflexivity.
+Qed.
+
+(* 6b. quickSort on any range, with any maxDepth and any fuel above the range length: the range ends
+   up without inversion, nothing outside moves, every value of the range was there before. *)
+Theorem C03_quick_sort_sorted (lt : nat -> nat -> bool) (fuel a b d : nat) (s : list nat) :
+  strict_weak_order lt -> a <= b -> b <= length s -> b - a < fuel ->
+  exists s', quick_sort lt fuel a b d s = Ok s' /\
+    (length s' = length s /\
+     (forall q, q < a \/ b <= q -> nth q s' 0 = nth q s 0) /\
+     (forall p, a <= p -> p < b -> exists p', a <= p' /\ p' < b /\ nth p s' 0 = nth p' s 0)) /\
+    (forall i j, a <= i -> i < j -> j < b -> lt (nth j s' 0) (nth i s' 0) = false).
+Proof. exact (fun W => quick_sort_sorted lt W fuel a b d s). Qed.
+Print Assumptions C03_quick_sort_sorted.
+
+(* both only permute their range: data[lo:hi] afterwards is a permutation of data[lo:hi] before *)
+Theorem C03_do_pivot_range_perm (lt : nat -> nat -> bool) (lo hi : nat) (s : list nat) mlo mhi s' :
+  strict_weak_order lt -> 12 < hi - lo -> hi <= length s -> do_pivot lt lo hi s = Ok (mlo, mhi, s') ->
+  Permutation (firstn (hi - lo) (skipn lo s')) (firstn (hi - lo) (skipn lo s)).
+Proof. exact (fun W => do_pivot_range_perm lt W lo hi s mlo mhi s'). Qed.
+Print Assumptions C03_do_pivot_range_perm.
+
+Theorem C03_quick_sort_range_perm (lt : nat -> nat -> bool) (fuel a b d : nat) (s s' : list nat) :
+  strict_weak_order lt -> a <= b -> b <= length s -> b - a < fuel ->
+  quick_sort lt fuel a b d s = Ok s' ->
+  Permutation (firstn (b - a) (skipn a s')) (firstn (b - a) (skipn a s)).
+Proof. exact (fun W => quick_sort_range_perm lt W fuel a b d s s'). Qed.
+Print Assumptions C03_quick_sort_range_perm.
+
+(* 6c. Sort(): for every strict weak order Less, every index of every length (all regimes of the
+   sorter: insertion sort, median of three, ninther, heapsort fallback) the output has no inversion. *)
 Definition C03_sorted_full_statement : Prop :=
   forall (lt : nat -> nat -> bool) (ids out : list nat),
     strict_weak_order lt -> sort_ids lt ids = Ok out ->
     forall i j a b, i < j -> nth_error out i = Some a -> nth_error out j = Some b -> lt b a = false.
+
+Theorem C03_sorted : C03_sorted_full_statement.
+Proof. exact (fun lt ids out W => sort_ids_sorted lt W ids out). Qed.
+Print Assumptions C03_sorted.
+
+Example C03_sorted_example :
+  let ranks := [0; 7; 4; 1; 8; 5; 2; 9; 6; 3; 0; 7; 4; 1; 8; 5; 2; 9; 6; 3; 0; 7; 4; 1; 8;
+                5; 2; 9; 6; 3; 0; 7; 4; 1; 8; 5; 2; 9; 6; 3; 0; 7; 4; 1; 8; 5; 2; 9; 6; 3]%N in
+  strict_weak_order (rank_lt ranks) /\
+  sort_ids (rank_lt ranks) (seq 0 50)
+  = Ok [10; 30; 20; 40; 0; 43; 23; 13; 33; 3; 6; 36; 16; 46; 26; 9; 29; 39; 19; 49; 12; 22; 2; 42; 32;
+        45; 15; 5; 35; 25; 18; 28; 8; 48; 38; 31; 1; 21; 41; 11; 14; 24; 4; 44; 34; 37; 7; 27; 47; 17].
+Proof.
+  intros ranks. split; [apply (swo_of_rank _ (fun a => nthd ranks 0%N a))|]. vm_compute. reflexivity.
+Qed.
+
+(* total form: Sort() answers (no panic), the answer is a permutation of the index and has no inversion *)
+Theorem C03_sort_correct (lt : nat -> nat -> bool) (ids : list nat) :
+  strict_weak_order lt ->
+  exists out, sort_ids lt ids = Ok out /\ Permutation out ids /\
+    forall i j a b, i < j -> nth_error out i = Some a -> nth_error out j = Some b -> lt b a = false.
+Proof. exact (fun W => sort_ids_correct lt W ids). Qed.
+Print Assumptions C03_sort_correct.
+
+(* 7. The statement of the property on the modelled sorter, without any premise: for every list of
+   keys over the five column types with every Reverse / NullLast (the Comparables as Sorter.Less
+   consults them, model_lt), for every index: Sort() answers, returns every row id of the index
+   exactly once, and no row is followed by a row that is smaller in the order worded by the property
+   (spec_lt: lexicographic; natural order per type; null/NaN smallest, largest with NullLast; Reverse
+   inverting the complete order of the key). *)
+Definition C03_full_statement : Prop :=
+  forall (keys : list keyspec) (ids : list nat),
+    exists out, sort_ids (model_lt keys) ids = Ok out /\ Permutation out ids /\
+      forall i j a b, i < j -> nth_error out i = Some a -> nth_error out j = Some b ->
+                      spec_lt keys b a = false.
+
+Theorem C03_sort_by_keys : C03_full_statement.
+Proof. exact sort_ids_by_keys. Qed.
+Print Assumptions C03_sort_by_keys.
+
+(* 8. Model and oracle are consistent: the verified checker accepts the model's own output, so an
+   implementation output that passes the exact comparison with the model (no code 1) can never be
+   rejected by the property oracle (code 2). *)
+Theorem C03_checker_accepts_model (lt : nat -> nat -> bool) (ids out : list nat) :
+  strict_weak_order lt -> sort_ids lt ids = Ok out -> sorted_perm_b lt ids out = true.
+Proof. exact (sort_ids_checker_accepts lt ids out). Qed.
+Print Assumptions C03_checker_accepts_model.
+
+Theorem C03_checker_accepts_model_keys (keys : list keyspec) (ids out : list nat) :
+  sort_ids (model_lt keys) ids = Ok out -> sorted_perm_b (spec_lt keys) ids out = true.
+Proof. exact (sort_ids_checker_accepts_keys keys ids out). Qed.
+Print Assumptions C03_checker_accepts_model_keys.
+
+Example C03_checker_accepts_model_keys_example :
+  let keys := [(KBool [true; false; true; false; true; false; true; false; true; false; true; false;
+                       true; false; true; false], (true, false));
+               (KStr [Some [3]; None; Some [1; 2]; Some [1]; None; Some [2]; Some []; Some [3];
+                      Some [1]; None; Some [2; 0]; Some [2]; Some [9]; Some [0]; None; Some [1; 2]]%N,
+                (false, true))] in
+  sort_ids (model_lt keys) (seq 0 16) = Ok [6; 8; 2; 10; 0; 12; 14; 4; 13; 3; 15; 5; 11; 7; 1; 9].
+Proof. vm_compute. reflexivity. Qed.
+
+(* the premise of 6c is needed: with an inconsistent Less (1 < 0 and 0 < 1) every output has an inversion *)
+Example C03_sorted_needs_order_example :
+  let lt := fun a b : nat => negb (a =? b) in
+  sort_ids lt [0; 1] = Ok [1; 0] /\ lt 0 1 = true /\ lt 1 0 = true.
+Proof. vm_compute. repeat split; reflexivity. Qed.
